@@ -45,6 +45,15 @@ func main() {
 		rules.DebugPanics(prog)
 		return
 	}
+	if len(os.Args) >= 2 && os.Args[1] == "modes" {
+		prog, err := core.Load("/repo")
+		if err != nil {
+			fmt.Println(err)
+			os.Exit(2)
+		}
+		rules.DebugModes(prog)
+		return
+	}
 	if len(os.Args) < 3 || os.Args[1] != "check" {
 		var ids []string
 		for id := range rules.Registry {
